@@ -647,6 +647,69 @@ func ruleFieldAgreement(c *Check, p *Prog, tp *types.Package, goT, pbT string) {
 	}
 	// ---- FromProto
 	g := BuildECFG(p, fromP, ExpandOpts{MaxDepth: 0})
+	// absentBy(t, pol, hit): the branch condition says that a part of the message is absent or
+	// empty — directly (x == nil, len(x) == 0), or as the false result of a predicate of the
+	// package every rejecting alternative of which says so; hit tells whether a tested term is
+	// the part in question
+	var absentBy func(t *Term, pol bool, hit func(x *Term) bool, depth int) bool
+	absentBy = func(t *Term, pol bool, hit func(x *Term) bool, depth int) bool {
+		t, pol = normFact(t, pol)
+		if t.Op == "bin" && len(t.Args) == 2 {
+			absentPol := false
+			switch {
+			case t.Args[1].Name == "nil":
+				absentPol = (t.Name == "==" && pol) || (t.Name == "!=" && !pol)
+			case t.Args[1].Name == "0" && strings.HasPrefix(t.Args[0].String(), "len("):
+				absentPol = (t.Name == "==" && pol) || (t.Name == ">" && !pol) || (t.Name == "!=" && !pol)
+			}
+			if !absentPol {
+				return false
+			}
+			found := false
+			t.Walk(func(x *Term) bool {
+				if x.Op == "field" {
+					// the tested part itself, not what contains it
+					if hit(x) {
+						found = true
+					}
+					return false
+				}
+				return true
+			})
+			return found
+		}
+		if t.Op == "call" && !pol && depth > 0 {
+			cv, ok := t.V.(*ssa.Call)
+			if !ok {
+				return false
+			}
+			callee := cv.Common().StaticCallee()
+			if callee == nil || callee.Blocks == nil || fnPkg(callee) == nil || fnPkg(callee).Pkg.Path() != rootPath+"/types" {
+				return false
+			}
+			d := 0
+			if t.Ctx != nil {
+				d = t.Ctx.Depth + 1
+			}
+			alts := p.RejectDNF(callee, &Ctx{Parent: t.Ctx, Site: cv, Fn: callee, Depth: d}, 0, 1)
+			if len(alts) == 0 {
+				return false
+			}
+			for _, alt := range alts {
+				okAlt := false
+				for _, f := range alt {
+					if absentBy(f.Cond, f.Pol, hit, depth-1) {
+						okAlt = true
+					}
+				}
+				if !okAlt {
+					return false
+				}
+			}
+			return true
+		}
+		return false
+	}
 	c.NoteGraph(g)
 	other := fromP.Params[1].Name()
 	frecv := fromP.Params[0].Name()
@@ -809,32 +872,14 @@ func ruleFieldAgreement(c *Check, p *Prog, tp *types.Package, goT, pbT string) {
 						continue
 					}
 					guardOn := g.Select(EdgeWhere(func(t *Term, pol bool, n *Node) bool {
-						t, pol = normFact(t, pol)
 						// only the "absent / empty" polarity of a test justifies a zero assignment
-						absentPol := false
-						if t.Op == "bin" && len(t.Args) == 2 {
-							switch {
-							case t.Args[1].Name == "nil":
-								absentPol = (t.Name == "==" && pol) || (t.Name == "!=" && !pol)
-							case t.Args[1].Name == "0" && strings.HasPrefix(t.Args[0].String(), "len("):
-								absentPol = (t.Name == "==" && pol) || (t.Name == ">" && !pol) || (t.Name == "!=" && !pol)
-							}
-						}
-						if !absentPol {
-							return false
-						}
-						hit := false
-						t.Walk(func(x *Term) bool {
-							if x.Op == "field" && strings.HasPrefix(x.String(), other+".") {
-								q := strings.TrimPrefix(x.String(), other+".")
-								if q == pf || strings.HasPrefix(pf, q+".") {
-									hit = true
-								}
+						return absentBy(t, pol, func(x *Term) bool {
+							if !strings.HasPrefix(x.String(), other+".") {
 								return false
 							}
-							return true
-						})
-						return hit
+							q := strings.TrimPrefix(x.String(), other+".")
+							return q == pf || strings.HasPrefix(pf, q+".")
+						}, 2)
 					}))
 					wn := w.n
 					if g.PathAvoiding([]*Node{g.Entry}, func(x *Node) bool { return x == wn }, nodeSet(guardOn)) == nil {
@@ -859,12 +904,7 @@ func ruleFieldAgreement(c *Check, p *Prog, tp *types.Package, goT, pbT string) {
 			continue
 		}
 		// the message field paired with this leaf is absent: nothing to assign on that branch
-		absent := g.Select(EdgeWhere(func(t *Term, pol bool, n *Node) bool {
-			t, pol = normFact(t, pol)
-			if t.Op != "bin" || t.Args[1].Name != "nil" || !((t.Name == "==" && pol) || (t.Name == "!=" && !pol)) {
-				return false
-			}
-			x := t.Args[0]
+		pairedPart := func(x *Term) bool {
 			if x.Op != "field" || !strings.HasPrefix(x.String(), other+".") {
 				return false
 			}
@@ -875,6 +915,17 @@ func ruleFieldAgreement(c *Check, p *Prog, tp *types.Package, goT, pbT string) {
 				}
 			}
 			return false
+		}
+		absent := g.Select(EdgeWhere(func(t *Term, pol bool, n *Node) bool {
+			nt, npol := normFact(t, pol)
+			if nt.Op == "bin" {
+				if nt.Args[1].Name != "nil" || !((nt.Name == "==" && npol) || (nt.Name == "!=" && !npol)) {
+					return false
+				}
+				return pairedPart(nt.Args[0])
+			}
+			// the false result of a predicate of the package that rejects only what is absent
+			return absentBy(t, pol, pairedPart, 2)
 		}))
 		path := g.PathAvoiding([]*Node{g.Entry}, succ, orPred(nodeSet(fromPB), nodeSet(absent)))
 		if path == nil {
@@ -1104,7 +1155,7 @@ func ruleDecoderGuards(c *Check, p *Prog) {
 		if fn == nil {
 			continue
 		}
-		g := BuildECFG(p, fn, ExpandOpts{MaxDepth: 0})
+		g := BuildECFG(p, fn, predicatesOnly(rootPath+"/types"))
 		c.NoteGraph(g)
 		seen := map[string]bool{}
 		for _, nd := range g.Nodes {
@@ -1131,7 +1182,8 @@ func ruleDecoderGuards(c *Check, p *Prog) {
 			seen[base.String()+"@"+p.InstrPos(fa)] = true
 			n++
 			guarded := false
-			for _, f := range g.NecessaryEdges(nodeSet([]*Node{nd})) {
+			// the facts on the way, closed through the package's own predicates that accepted
+			for _, f := range g.FactsAt(nodeSet([]*Node{nd}), 2) {
 				t := f.Cond
 				if t.Op == "bin" && t.Args[1].Name == "nil" && t.Args[0].String() == base.String() && ((t.Name == "!=" && f.Pol) || (t.Name == "==" && !f.Pol)) {
 					guarded = true
@@ -1847,4 +1899,22 @@ func ruleDecodersRefuseOnlyTheUnrepresentable(c *Check, p *Prog, rule string) {
 		c.Unk(rule, "anchor-count", "", "", "anchor lost: no FromProto in package types")
 	}
 	c.MinInstances(rule, 6)
+}
+
+
+// predicatesOnly: expansion options that look into the package's own boolean predicates (a guard
+// moved into a named function) and nothing else.
+func predicatesOnly(pkgPath string) ExpandOpts {
+	return ExpandOpts{MaxDepth: 1, Stop: func(f *ssa.Function) bool {
+		pk := fnPkg(f)
+		if pk == nil || pk.Pkg.Path() != pkgPath || f.Signature.Recv() != nil {
+			return true
+		}
+		res := f.Signature.Results()
+		if res.Len() != 1 {
+			return true
+		}
+		bt, ok := res.At(0).Type().Underlying().(*types.Basic)
+		return !ok || bt.Kind() != types.Bool
+	}}
 }
